@@ -81,7 +81,7 @@ func RunC18(p *LockSeq) Result {
 	opts := txfile.Options{PageSize: p.PageSize, MaxSize: uint64(p.MaxPages) * uint64(p.PageSize)}
 
 	var f *txfile.File
-	var fRO bool // the open handle was opened with Options.Readonly
+	var fRO bool    // the open handle was opened with Options.Readonly
 	var good []byte // file content when it was last closed cleanly
 	counter := byte(0)
 	var lastWritten []byte
